@@ -4,9 +4,11 @@ import json, subprocess
 def show(stage):
     return json.loads(subprocess.check_output(["git", "show", f":{stage}:known_findings.json"]))
 ours, theirs = show(2), show(3)
-ids = {e["id"] for e in ours["findings"]}
+idx = {e["id"]: i for i, e in enumerate(ours["findings"])}
 for e in theirs["findings"]:
-    if e["id"] not in ids:
+    if e["id"] not in idx:
         ours["findings"].append(e)
+    elif ours["findings"][idx[e["id"]]]["status"] == "open" and e["status"] != "open":
+        ours["findings"][idx[e["id"]]] = e
 json.dump(ours, open("known_findings.json", "w"), indent=1)
 print(len(ours["findings"]), "findings")
